@@ -52,7 +52,7 @@ M = [
  ("C10-undef-case", "C10", "src/builder/pass2.rs", ".remove(&alias.to_lowercase())", ".remove(alias)", ".undef case-sensitive again"),
  ("C10-undef-silent", "C10", "src/builder/pass2.rs", "bail!(\"Identifier {} isn't defined, {}\", alias, line);", "let _ = (alias, line);", ".undef of an unknown alias silently accepted (harmless alone) "),
  # ---- C11 includes
- ("C11-includepath-cwd", "C11", "src/directive.rs", "let mut current_path = current_path.parent().unwrap().to_path_buf();", "let mut current_path = std::env::current_dir().unwrap_or(current_path.parent().unwrap().to_path_buf());", "relative .includepath resolved against the working directory"),
+ ("C11-includepath-cwd", "C11", "src/directive.rs", "let mut current_path = current_path\n                                .parent()\n                                .map(|p| p.to_path_buf())\n                                .unwrap_or_default();", "let mut current_path = std::env::current_dir().unwrap_or_default();", "relative .includepath resolved against the working directory"),
  ("C11-includer-dir-not-added", "C11", "src/parser.rs", "        if let None = include_paths.get(parent) {\n            include_paths.insert(parent.to_path_buf());\n        }", "        if include_paths.is_empty() {\n            include_paths.insert(parent.to_path_buf());\n        }", "includer's directory only searched when no other include directory is known"),
  # ---- C12 capacity
  ("C12-eeprom-ge", "C12", "src/builder/pass1.rs", "SegmentType::Eeprom => device.eeprom_size as u64,", "SegmentType::Eeprom => (device.eeprom_size as u64).saturating_sub(1),", "EEPROM filled exactly to capacity is rejected"),
